@@ -17,7 +17,7 @@ import subprocess
 import sys
 
 VERIF = os.path.dirname(os.path.dirname(os.path.abspath(__file__)))
-MAX_ITEMS = 6
+MAX_ITEMS = 10
 
 
 # =====================================================================================================================
@@ -145,7 +145,12 @@ class Extractor:
         core, z3 = self.core, self.z3
         out = []
         if ksort == core.Str:
-            cands = list(self.universe)
+            # strings that are values of scalar parameters first (they are the interesting keys)
+            first = []
+            for v in self.eng.entry_vars.values():
+                if isinstance(v, core.SV) and v.ty == core.STR:
+                    first.append(self.ev(v.t))
+            cands = first + [u for u in self.universe if all(str(u) != str(f) for f in first)]
         elif ksort == core.Ref:
             try:
                 cands = list(self.m.get_universe(core.Ref) or [])
@@ -267,12 +272,24 @@ def _domain(d):
     return list(d)
 
 
+_PARTIAL = (KeyError, TypeError, AttributeError, IndexError, ValueError)
+
+
+def _total(lam, xs, unspecified):
+    """specifications are total (a partial operation yields an unspecified value): an instance whose evaluation hits
+    one counts as satisfied under forall and as not satisfied under exists, so only definite violations are reported"""
+    try:
+        return bool(lam(*xs))
+    except _PARTIAL:
+        return unspecified
+
+
 def forall(*args):
     *doms, lam = args
     n = lam.__code__.co_argcount
     if len(doms) == 1 and n > 1:
         doms = doms * n
-    return all(lam(*xs) for xs in itertools.product(*[_domain(d) for d in doms]))
+    return all(_total(lam, xs, True) for xs in itertools.product(*[_domain(d) for d in doms]))
 
 
 def exists(*args):
@@ -280,7 +297,7 @@ def exists(*args):
     n = lam.__code__.co_argcount
     if len(doms) == 1 and n > 1:
         doms = doms * n
-    return any(lam(*xs) for xs in itertools.product(*[_domain(d) for d in doms]))
+    return any(_total(lam, xs, False) for xs in itertools.product(*[_domain(d) for d in doms]))
 
 
 def implies(a, b):
@@ -388,8 +405,22 @@ def load_contract_namespace(path):
         ns[k] = globals()[k]
     ns['field'] = ns['contents'] = ns['whole'] = lambda *a: None
     ns['everything'] = lambda: None
+    import ast
     src = open(path).read().replace('from pyvc.spec import *', '')
-    exec(compile(src, path, 'exec'), ns)
+    tree = ast.parse(src, filename=path)
+
+    class Lazy(ast.NodeTransformer):
+        """implies / ite are lazy in the concrete reading (python would evaluate both arguments eagerly)"""
+
+        def visit_Call(self, n):
+            self.generic_visit(n)
+            if isinstance(n.func, ast.Name) and n.func.id == 'implies' and len(n.args) == 2:
+                return ast.BoolOp(op=ast.Or(), values=[ast.UnaryOp(op=ast.Not(), operand=n.args[0]), n.args[1]])
+            if isinstance(n.func, ast.Name) and n.func.id == 'ite' and len(n.args) == 3:
+                return ast.IfExp(test=n.args[0], body=n.args[1], orelse=n.args[2])
+            return n
+    tree = ast.fix_missing_locations(Lazy().visit(tree))
+    exec(compile(tree, path, 'exec'), ns)
     return ns
 
 
@@ -566,14 +597,18 @@ def replay_scenario(doc):
     old = Old()
     for k, v in old_copy.items():
         setattr(old, k, v)
-    outcome, result, exc = 'normal', None, None
-    with patch('time.monotonic', side_effect=seq(mono, U.clock)), patch('time.time', side_effect=seq(walls, 0.0)):
+XX, side_effect=seq(mono, U.clock)), patch('time.time', side_effect=seq(walls, 0.0)):
         try:
             result = fn(**params)
         except Exception as e:   # the real code raised
             outcome, exc = 'raised', e
     rep = {'outcome': outcome, 'exception': f'{type(exc).__name__}: {exc}' if exc else None,
            'result': repr(result)[:200]}
+    if pre_failed:
+        rep['reproduced'] = None
+        rep['detail'] = f'the object graph rebuilt from the model does not satisfy precondition {pre_failed} natively ' \
+                        f'(model truncated or abstraction not representable): replay inconclusive'
+        return rep
     if name.startswith('safe:'):
         want = name[5:].split('@')[0].replace('(raised)', '')
         got = type(exc).__name__ if exc else None
